@@ -18,7 +18,7 @@ class Taint:
        stop_calls(term) -> bool : calls that do NOT propagate"""
 
     def __init__(self, body, place_src=None, call_src=None, const_src=None, local_src=(), through_calls=True,
-                 stop_calls=None, mut_args=True):
+                 stop_calls=None, mut_args=False):
         self.body = body
         self.place_src = place_src or (lambda p: False)
         self.call_src = call_src or (lambda t: False)
@@ -94,6 +94,16 @@ class Taint:
                     if tainted:
                         if self._write(t['dst']):
                             changed = True
+                    # a tainted argument handed to a call together with `&mut x` may flow into x (v.push(t), map.insert(k, t), ...)
+                    if self.mut_args and not self.stop_calls(t) and any(self.op_tainted(a) for a in t['args']):
+                        for a in t['args']:
+                            p = op_place(a)
+                            if p is None or not isinstance(p, int):
+                                continue
+                            for kind, dbb, dj, node in body.defs.get(p, []):
+                                if kind == 'stmt' and node['rv']['k'] == 'ref' and node['rv'].get('mut'):
+                                    if self._write(node['rv']['pl']):
+                                        changed = True
                 elif t['k'] == 'yield':
                     if self.op_tainted(t['val']) and self._write(t['dst']):
                         changed = True
